@@ -87,7 +87,27 @@ func skeleton(fset *token.FileSet, body *ast.BlockStmt) []string {
 			emit(d, fmt.Sprintf("for %s, %s %s range %s", src(fset, s.Key), src(fset, s.Value), s.Tok, src(fset, s.X)))
 			walkList(s.Body.List, d+1)
 		case *ast.ForStmt:
-			emit(d, "for")
+			hd := "for"
+			if s.Init != nil || s.Cond != nil || s.Post != nil {
+				part := func(n ast.Node) string {
+					if n == nil || n == ast.Node((*ast.ExprStmt)(nil)) {
+						return ""
+					}
+					return src(fset, n)
+				}
+				var i, c, p string
+				if s.Init != nil {
+					i = part(s.Init)
+				}
+				if s.Cond != nil {
+					c = part(s.Cond)
+				}
+				if s.Post != nil {
+					p = part(s.Post)
+				}
+				hd = "for " + i + "; " + c + "; " + p
+			}
+			emit(d, hd)
 			walkList(s.Body.List, d+1)
 		case *ast.SelectStmt:
 			emit(d, "select")
@@ -479,6 +499,17 @@ func run(repo string) (string, error) {
 		}
 	}
 	fmt.Fprintf(&b, "/-- share/dkg/pedersen genGroup: every statement that mentions the share, the public polynomial, the group key, its coordinates, the group id, the value sent on out — in order -/\ndef genGroupKeyGlue : List String := %s\n\n", strList(glue))
+	// decodePubKey (pdkg.go): the complete statement skeleton — how the four coordinates are cut out of the encoding
+	fsK, fK, err := ex.Parse(filepath.Join(repo, "share", "dkg", "pedersen", "pdkg.go"))
+	if err != nil {
+		return "", err
+	}
+	dpk := ex.FuncDecl(fK, "", "decodePubKey")
+	if dpk == nil {
+		return "", fmt.Errorf("decodePubKey not found in share/dkg/pedersen/pdkg.go")
+	}
+	fmt.Fprintf(&b, "/-- share/dkg/pedersen decodePubKey: signature and complete statement skeleton (depth statement) -/\ndef decodePubKeyBody : List String := %s\n\n",
+		strList(append([]string{src(fsK, dpk.Type)}, skeleton(fsK, dpk.Body)...)))
 	fsS, fS, err := ex.Parse(filepath.Join(repo, "dosnode", "dos_stages.go"))
 	if err != nil {
 		return "", err
